@@ -95,7 +95,8 @@ fn proc_strategy() -> impl Strategy<Value = Proc> {
 }
 
 pub fn launch_strategy() -> impl Strategy<Value = Vec<LOp>> {
-    let kv = || (nasty_string(8), nasty_string(8));
+    // label keys are drawn from a small pool half of the time so that duplicate keys (legal: labels are a list) occur
+    let kv = || (prop_oneof![2 => prop_oneof![Just("io.k".to_string()), Just("k".to_string()), Just("k2".to_string())], 2 => nasty_string(8)], nasty_string(8));
     let lop = prop_oneof![
         4 => proc_strategy().prop_map(LOp::Process),
         1 => proptest::collection::vec(proc_strategy(), 0..3).prop_map(LOp::Processes),
